@@ -2,7 +2,7 @@
 // Implementation side of the dynrf family (C19): DynamicRFKickMap against RFKickMap, the
 // modulation queue under apply/flush schedules, __calcModulation with a known PRNG seed, and
 // RFKickMap::_calcKick.  Private members are only read, with two exceptions that the case kinds
-// state: `calcmod` reseeds `_prng` before calling the private __calcModulation, and `sched`
+// state: `calcmod` and `sched` (seed != 0) reseed `_prng` and call the private __calcModulation, and `sched`
 // calls RFKickMap::_calcKick(phase, ampl) on a separate *static* reference object.
 
 struct RFArgs {
@@ -137,7 +137,9 @@ static void do_dynstat()
     printf("\nend\n");
 }
 
-// sched <id> <args> <ops: string over A,F> data(nb*n*n)
+// sched <id> <args> <seed> <ops: string over A,F> data(nb*n*n)
+// seed != 0: the queue is recomputed by the map's own __calcModulation after reseeding its PRNG
+// (what the constructor does, with a known seed instead of std::random_device)
 // prints: queue (initial), then per op: `A` + offsets after the apply + `R` offsets a static
 // reference object computes from RFKickMap::_calcKick(m) for every m of the initial queue is
 // printed once as `ref <j> ...`;  `F` + the chunk returned by getPastModulation.
@@ -146,6 +148,7 @@ static void do_sched()
 {
     std::string id = next();
     RFArgs a = read_args();
+    unsigned long seed = strtoul(next().c_str(), nullptr, 10);
     std::string ops = next();
     size_t sz = (size_t)a.nb * a.n * a.n;
     std::vector<float> data(sz);
@@ -153,6 +156,11 @@ static void do_sched()
     auto din = mk(a), dout = mk(a), rin = mk(a), rout = mk(a);
     std::copy(data.begin(), data.end(), din->getData());
     auto d = mkdyn(a, din, dout);
+    if (seed) {
+        d->_prng.seed(seed);
+        d->_dist.reset();
+        d->_next_modulation = d->__calcModulation(a.steps);
+    }
     auto ref = mkstatic(a, rin, rout);
     printf("case %s\n", id.c_str());
     auto q0 = qcopy(*d);
@@ -176,7 +184,9 @@ static void do_sched()
             printf("\n");
         }
     }
-    printf("pastsize %zu\n", d->_past_modulation.size());
+    printf("pending");
+    for (auto& m : d->getPastModulation()) { pf(m[0]); pf(m[1]); }
+    printf("\n");
     printf("left");
     for (auto& m : qcopy(*d)) { pf(m[0]); pf(m[1]); }
     printf("\nend\n");
